@@ -570,7 +570,10 @@ func (w *l2World) genOp(spec *modelL2, bc blockCtx) ([]sdk.Msg, string, string) 
 			bi = *spec.Bridge
 		}
 		tag := "same"
-		switch w.r.Intn(7) {
+		switch w.r.Intn(8) {
+		case 7:
+			bi.L1ClientId = ""
+			tag = "clear-client-id"
 		case 0:
 			bi.BridgeId++
 			tag = "other-bridge-id"
@@ -1034,8 +1037,8 @@ func (w *l2World) registerPlan(bc blockCtx) *core.Violation {
 	h := uint64(bc.Height) + uint64(r.Intn(5))
 	opLbl := fmt.Sprintf("planop%d", r.Intn(3))
 	keyLbl := fmt.Sprintf("plankey%d", r.Intn(3))
-	avoidOp := w.avoidKnown && (core.Known.Listed("C14", "plan/known-operator") || core.Known.Listed("C14", "plan/known-operator+used-key"))
-	avoidKey := w.avoidKnown && (core.Known.Listed("C14", "plan/used-key") || core.Known.Listed("C14", "plan/known-operator+used-key"))
+	avoidOp := (w.avoidKnown || w.p.Prop != "C14") && (core.Known.Listed("C14", "plan/known-operator") || core.Known.Listed("C14", "plan/known-operator+used-key"))
+	avoidKey := (w.avoidKnown || w.p.Prop != "C14") && (core.Known.Listed("C14", "plan/used-key") || core.Known.Listed("C14", "plan/known-operator+used-key"))
 	if avoidOp {
 		opLbl = fmt.Sprintf("planop-u%d", len(w.plans))
 	}
